@@ -75,6 +75,38 @@ int main(int argc, char **argv) {
                       CoordinateVector< uint_fast32_t >(nx, ny, nz));
       grid->create_all_cells(l0);
       printf("G %zu %" PRIu64 "\n", grid->get_number_of_cells(), (uint64_t)grid->get_first_key());
+    } else if (op == "GA") {
+      // AMR grid in an arbitrary (not dyadic) box: anchor and sides as binary64 bit patterns (defect probes)
+      long nx, ny, nz, l0;
+      uint64_t a[3], sd[3];
+      std::cin >> nx >> ny >> nz >> l0 >> std::hex >> a[0] >> a[1] >> a[2] >> sd[0] >> sd[1] >> sd[2] >> std::dec;
+      delete grid;
+      grid = new Grid(Box<>(CoordinateVector<>(b2d(a[0]), b2d(a[1]), b2d(a[2])),
+                            CoordinateVector<>(b2d(sd[0]), b2d(sd[1]), b2d(sd[2]))),
+                      CoordinateVector< uint_fast32_t >(nx, ny, nz));
+      grid->create_all_cells(l0);
+      printf("GA %zu %" PRIu64 "\n", grid->get_number_of_cells(), (uint64_t)grid->get_first_key());
+    } else if (op == "KD") {
+      // key of a position given as binary64 bit patterns; no cell lookup (the key may not exist)
+      uint64_t a[3];
+      std::cin >> std::hex >> a[0] >> a[1] >> a[2] >> std::dec;
+      printf("KD %" PRIu64 "\n", (uint64_t)grid->get_key(CoordinateVector<>(b2d(a[0]), b2d(a[1]), b2d(a[2]))));
+    } else if (op == "CA") {
+      long nx, ny, nz;
+      uint64_t a[3], sd[3];
+      std::cin >> nx >> ny >> nz >> std::hex >> a[0] >> a[1] >> a[2] >> sd[0] >> sd[1] >> sd[2] >> std::dec;
+      delete cart;
+      cart = new CartesianDensityGrid(Box<>(CoordinateVector<>(b2d(a[0]), b2d(a[1]), b2d(a[2])),
+                                            CoordinateVector<>(b2d(sd[0]), b2d(sd[1]), b2d(sd[2]))),
+                                      CoordinateVector< int_fast32_t >(nx, ny, nz), CoordinateVector< bool >(false), false,
+                                      nullptr);
+      printf("CA %zu\n", (size_t)cart->get_number_of_cells());
+    } else if (op == "PD") {
+      uint64_t a[3];
+      std::cin >> std::hex >> a[0] >> a[1] >> a[2] >> std::dec;
+      const CoordinateVector<> p(b2d(a[0]), b2d(a[1]), b2d(a[2]));
+      const CoordinateVector< int_fast32_t > idx = cart->get_cell_indices(p);
+      printf("PD %ld %ld %ld %zu\n", (long)idx.x(), (long)idx.y(), (long)idx.z(), (size_t)cart->get_cell_index(p));
     } else if (op == "R") {
       uint64_t key;
       std::cin >> key;
